@@ -181,8 +181,8 @@ pub fn property() -> Property {
                 "non-trivial = ≥2 data blocks, or a flush strictly inside the payload, or an incompressible payload ≥65000 bytes, or level 0; distinct by hash of the whole case",
                 strategy,
                 check,
-                4_000,
-                80_000,
+                200_000,
+                1_500_000,
             )
             .boxed(),
         ],
